@@ -204,4 +204,42 @@ theorem aggLoop_specAgg (fx : Fixes) (hd8 : fx.d8 = true) (l : List Host) : aggL
   have := maxRcFrom_ge 0 l
   split <;> omega
 
+/-! ### bounds of the -S loop, every variant (for time-outs and other cut-short runs) -/
+
+theorem aggLoop_le (fx : Fixes) (a : Int) (l : List Host) (ha : a ≤ 255) (hl : ∀ h ∈ l, h.rc ≤ 255) :
+    aggLoop fx a l ≤ 255 := by
+  induction l generalizing a with
+  | nil => simpa [aggLoop] using ha
+  | cons h t ih =>
+    have hh := hl h (by simp)
+    have hR := RC_FAILED_le
+    simp only [aggLoop]
+    apply ih _ _ (fun x hx => hl x (by simp [hx]))
+    split <;> split <;> (try split) <;> omega
+
+theorem aggLoop_ge_of_ge (fx : Fixes) (a : Int) (l : List Host) (ha : RC_FAILED ≤ a) :
+    RC_FAILED ≤ aggLoop fx a l := by
+  induction l generalizing a with
+  | nil => simpa [aggLoop] using ha
+  | cons h t ih =>
+    simp only [aggLoop]
+    apply ih
+    split <;> split <;> (try split) <;> omega
+
+/-- once a target is seen as failed the loop's value is at least RC_FAILED, repaired or not -/
+theorem aggLoop_ge_failed (fx : Fixes) (a : Int) (l : List Host) (h : ∃ x ∈ l, x.state = .failed) :
+    RC_FAILED ≤ aggLoop fx a l := by
+  induction l generalizing a with
+  | nil => obtain ⟨x, hx, _⟩ := h; simp at hx
+  | cons y t ih =>
+    simp only [aggLoop]
+    by_cases hy : y.state = .failed
+    · apply aggLoop_ge_of_ge
+      simp only [hy, if_true]
+      split <;> split <;> omega
+    · obtain ⟨x, hx, hxs⟩ := h
+      rcases List.mem_cons.mp hx with rfl | hin
+      · exact absurd hxs hy
+      · exact ih _ ⟨x, hin, hxs⟩
+
 end PdshVerif.Dsh.Exit
